@@ -259,17 +259,6 @@ Proof.
   apply I1_clear_from; [assumption|simpl; lia].
 Qed.
 
-Lemma hio_vrau_go c k h0 g r v l : forall s i, hio (with_ow h0 (fst
-  ((fix go (s : ow_st) (i : nat) (l : list nat) {struct l} : ow_st * res unit :=
-      match l with
-      | [] => K s
-      | o :: t => if o =? v then
-                    let '(s', r') := io_setitem c k s (hp h0) g (Z.of_nat i) r in
-                    match r' with Raise e => (s', Raise e) | Ok _ => go s' (S i) t end
-                  else go s (S i) t
-      end) s i l))) = hio h0.
-Proof. reflexivity. Qed.
-
 Ltac chainR := repeat match goal with
   | |- context [if ?b then R ?h ?e else _] => let E := fresh "E" in destruct b eqn:E; [assumption|] end.
 
